@@ -102,6 +102,44 @@ theorem mode_independent (c : Ctx) (m m' : Mode) (st : Store) (e : Expr)
   · unfold exprToBoolM
     simp [hdom]
 
+/-! ### every position counts, at every degree
+
+Corollaries in the form the position sweeps of the correspondence stream exercise (`bsweep` lines: the two operands differ
+in exactly one residue, at each position in turn; resp. agree in exactly one): whatever the degree — any multiple of the
+register width, power of two or not — and whatever the position of the difference, first or last of a modulus row, inside
+a full register or in the last one. -/
+
+/-- one differing coefficient, anywhere, makes `==` false -/
+theorem eq_false_of_differ_at (c : Ctx) (m : Mode) (st : Store) (a b : Expr) (ha : a.arith = true) (hb : b.arith = true)
+    (hdiv : eltCount c.l m ∣ c.deg) (cm i : Nat) (hcm : cm < c.nmod) (hi : i < c.deg)
+    (hne : loadElem c st a cm i ≠ loadElem c st b cm i) :
+    exprToBoolM c m st (.eq a b) = some false := by
+  have h := eq_iff_words c m st a b ha hb hdiv
+  rw [exprToBoolM_eq c m st a b ha hb] at h ⊢
+  cases hs : allSame c m st a b
+  · rfl
+  · exact (hne ((h.mp (by rw [hs])) cm hcm i hi)).elim
+
+/-- one differing coefficient, anywhere, makes `!=` true -/
+theorem neq_true_of_differ_at (c : Ctx) (m : Mode) (st : Store) (a b : Expr) (ha : a.arith = true) (hb : b.arith = true)
+    (hdiv : eltCount c.l m ∣ c.deg) (cm i : Nat) (hcm : cm < c.nmod) (hi : i < c.deg)
+    (hne : loadElem c st a cm i ≠ loadElem c st b cm i) :
+    exprToBoolM c m st (.neq a b) = some true :=
+  (neq_iff_words c m st a b ha hb hdiv).mpr ⟨cm, hcm, i, hi, hne⟩
+
+/-- one non-zero coefficient, anywhere, makes the conversion of an arithmetic expression true -/
+theorem bool_true_of_nonzero_at (c : Ctx) (m : Mode) (st : Store) (e : Expr) (he : e.arith = true)
+    (hdiv : eltCount c.l m ∣ c.deg) (cm i : Nat) (hcm : cm < c.nmod) (hi : i < c.deg) (hne : loadElem c st e cm i ≠ 0) :
+    exprToBoolM c m st e = some true :=
+  (bool_iff_nonzero_words c m st e he hdiv).mpr ⟨cm, hcm, i, hi, hne⟩
+
+/-- a single agreeing coefficient does not make `==` true: it is true only if *all* agree (the former defect F1 had
+"some residue agrees"), in particular not when all the others differ -/
+theorem eq_true_only_if_all (c : Ctx) (m : Mode) (st : Store) (a b : Expr) (ha : a.arith = true) (hb : b.arith = true)
+    (hdiv : eltCount c.l m ∣ c.deg) (h : exprToBoolM c m st (.eq a b) = some true) (cm i : Nat) (hcm : cm < c.nmod)
+    (hi : i < c.deg) : loadElem c st a cm i = loadElem c st b cm i :=
+  (eq_iff_words c m st a b ha hb hdiv).mp h cm hcm i hi
+
 /-! ### the property: plain polynomials -/
 
 /-- **`a == b` on polynomials** (`poly == poly`, and what `poly_p == poly`, `poly_p == poly_p` forward to):
@@ -236,5 +274,21 @@ example : exprToBool ctx16 .sse w3 (.sub (.leaf 0) (.leaf 2)) = some false := by
 example : exprToBool ctx16 .sse w3 (.sub (.leaf 0) (.leaf 1)) = some true := by decide
 example : polyToBool w3 0 = true ∧ polyToBool [[0, 0, 0, 0, 0, 0, 0, 0]] 0 = false := by decide
 example : ctx16.TableRows := by intro r hr; simp [ctx16] at hr; subst hr; decide
+
+/-! degrees that are not powers of two: 12 coefficients, two moduli, 32-bit limbs (register widths 1, 4; 8 does not
+divide 12: the AVX2 comparison of two such polynomials is rejected by the library's `static_assert`); the two rows
+differ in the **last** coefficient of the **first** modulus row only, resp. of the last row only -/
+def ctx12 : Ctx := { l := .w32, deg := 12, rows := [⟨1073479681, 4195312, 31849551, 1073446921⟩, ⟨1072496641, 19946058, 356382027, 1072463911⟩] }
+def w4 : Store := [(List.range 24).map (· + 1), ((List.range 24).map (· + 1)).set 11 99, ((List.range 24).map (· + 1)).set 23 99]
+example : eltCount ctx12.l .sse ∣ ctx12.deg ∧ ¬ eltCount ctx12.l .avx2 ∣ ctx12.deg := by decide
+example : compiles .avx2 .w32 12 (.eq (.leaf 0) (.leaf 1)) = false ∧ compiles .sse .w32 12 (.eq (.leaf 0) (.leaf 1)) = true := by decide
+example : exprToBool ctx12 .serial w4 (.eq (.leaf 0) (.leaf 1)) = some false := by decide
+example : exprToBool ctx12 .sse w4 (.eq (.leaf 0) (.leaf 1)) = some false := by decide
+example : exprToBool ctx12 .sse w4 (.eq (.leaf 0) (.leaf 2)) = some false := by decide
+example : exprToBool ctx12 .sse w4 (.neq (.leaf 0) (.leaf 2)) = some true := by decide
+example : exprToBool ctx12 .sse w4 (.sub (.leaf 0) (.leaf 1)) = some true := by decide
+example : exprToBool ctx12 .sse w4 (.eq (.leaf 0) (.leaf 0)) = some true := by decide
+example : polyPEq ctx12 .sse w4 1 2 = some false ∧ polyPNeq ctx12 .sse w4 1 2 = some true := by decide
+example : ctx12.TableRows := by intro r hr; simp [ctx12] at hr; rcases hr with hr | hr <;> subst hr <;> decide
 
 end Nfl.C08
